@@ -362,20 +362,8 @@ def build_behaviour(c):
     wd = os.path.join(c.work, "mfront")
     os.makedirs(wd, exist_ok=True)
     shutil.copyfile(os.path.join(c.dir, "Elas.mfront"), os.path.join(wd, "Elas.mfront"))
-    sem = "/dev/shm/sem.mfront-%d" % os.getuid()
-    saved = open(sem, "rb").read() if os.path.exists(sem) else None
-    try:
-        rc, out, err = c.run([os.path.join(vlib.REPO_BUILD, "mfront", "src", "mfront"), "--interface=generic", "Elas.mfront"], cwd=wd, timeout=300)
-    finally:
-        try:
-            if saved is None:
-                if os.path.exists(sem):
-                    os.remove(sem)
-            else:
-                with open(sem, "r+b") as f:
-                    f.write(saved)
-        except OSError:
-            pass
+    # vlib.run isolates mfront in a private /dev/shm: the shared semaphore is never touched
+    rc, out, err = c.run([os.path.join(vlib.REPO_BUILD, "mfront", "src", "mfront"), "--interface=generic", "Elas.mfront"], cwd=wd, timeout=300)
     if rc != 0:
         raise vlib.BuildError("mfront failed on Elas.mfront: " + (out + err)[-1500:])
     return c.cxx("libVElas.so", [os.path.join(wd, "src", "VElas.cxx"), os.path.join(wd, "src", "VElas-generic.cxx")],
